@@ -1,7 +1,8 @@
 # Table of registered checks; exec'd by mkmanifest.py. Add a reg(...) call when a check is
 # built, has been run to completion on the unchanged tree and has failed on at least one mutant.
 
-HOOK_COMMITS = ['b944277 verif hooks: RLBOX_VERIF_POINT / RLBOX_VERIF_SHARED (guarded by ALLENABY_RLBOX_VERIF)']
+HOOK_COMMITS = ['b944277 verif hooks: RLBOX_VERIF_POINT / RLBOX_VERIF_SHARED (guarded by ALLENABY_RLBOX_VERIF)',
+                'f7c55e1 verif hooks: read point between the range checks and the cast in convert_type_fundamental (guarded by ALLENABY_RLBOX_VERIF)']
 
 ENGINES = [
     dict(name='driver', path='lib/vdriver.py', serves_properties=['C%02d' % i for i in range(1, 21)],
